@@ -272,6 +272,15 @@ impl Header {
         self.to_raw().map(|raw| CRC32C.checksum(&raw))
     }
 
+    /// Used when a record is copied to another place (recovery, migration): the header has to say where it is
+    pub(crate) fn with_blob_offset(mut self, blob_offset: u64) -> bincode::Result<Self> {
+        if self.blob_offset != blob_offset {
+            self.blob_offset = blob_offset;
+            self.update_checksum()?;
+        }
+        Ok(self)
+    }
+
     /// Used for migration
     pub(crate) fn with_reversed_key_bytes(mut self) -> bincode::Result<Self> {
         self.key.reverse();
